@@ -1,5 +1,225 @@
-(* C09 proofs: assembled from BSpline/FitProofs.v, EvalProofs.v *)
-From Coq Require Import QArith List Bool Arith Lia.
+(* C09 proofs beyond BSpline/FitProofs.v: the cheap evaluator fit_fast, the exact meaning of the
+   Cholesky checkers, and the abstract L L^T solve identity. *)
+From Coq Require Import QArith Qround Qabs Lqa List Bool Arith Lia.
 Import ListNotations.
-From PV Require Import Lib.WLS BSpline.Eval BSpline.Fit BSpline.FitProofs.
+From PV Require Import Lib.WLS BSpline.Eval BSpline.EvalProofs BSpline.Fit BSpline.FitProofs C09.Model.
 Open Scope Q_scope.
+
+(* ---- fit_fast: Gauss-Jordan on [A | b] followed by the gradient check *)
+Lemma fit_fast_sound m D x : fit_fast m D = Some x ->
+  length x = m /\ Forall (fun g => g == 0) (grad m D x).
+Proof.
+  unfold fit_fast. destruct (gj_solve m (normal_matrix m D) (rhs m D)) as [x0|]; [|discriminate].
+  apply solve_checked_sound.
+Qed.
+
+Theorem fit_fast_optimal m D x : wf m D -> fit_fast m D = Some x ->
+  forall z, length z = m -> chi2 D x <= chi2 D z.
+Proof.
+  unfold fit_fast. destruct (gj_solve m (normal_matrix m D) (rhs m D)) as [x0|]; [|discriminate].
+  apply solve_checked_optimal.
+Qed.
+
+(* whenever the certified-unique dense solve exists, the cheap evaluator returns the same coefficients *)
+Theorem fit_fast_agrees m D x z : rows_len m D -> fit_dense m D = Some x -> fit_fast m D = Some z ->
+  Forall2 Qeq z x.
+Proof.
+  intros HR Hd Hf. destruct (fit_fast_sound m D z Hf) as [Hl Hg].
+  exact (fit_unique m D x z HR Hd Hl Hg).
+Qed.
+
+(* ---- what the checkers certify *)
+Lemma close_spec tol a b : close tol a b = true <-> Qabs (a - b) <= tol.
+Proof. unfold close. apply Qle_bool_iff. Qed.
+
+Lemma close_zero a b : close 0 a b = true -> a == b.
+Proof.
+  intro H. apply close_spec in H.
+  assert (H0 : Qabs (a - b) == 0) by (apply Qle_antisym; [exact H | apply Qabs_nonneg]).
+  revert H0. apply Qabs_case; intros; lra.
+Qed.
+
+(* ---- L L^T = A: solving with the two triangular systems solves A x = b (matrices as index functions) *)
+Fixpoint sumf (f : nat -> Q) (n : nat) : Q := match n with O => 0 | S n' => sumf f n' + f n' end.
+
+Lemma sumf_ext f g n : (forall i, (i < n)%nat -> f i == g i) -> sumf f n == sumf g n.
+Proof.
+  induction n as [|n IH]; intro H; cbn [sumf]; [reflexivity|].
+  rewrite IH by (intros; apply H; lia). rewrite (H n) by lia. reflexivity.
+Qed.
+
+Lemma sumf_scale a f n : sumf (fun i => a * f i) n == a * sumf f n.
+Proof. induction n as [|n IH]; cbn [sumf]; [ring|]. rewrite IH. ring. Qed.
+
+Lemma sumf_plus f g n : sumf (fun i => f i + g i) n == sumf f n + sumf g n.
+Proof. induction n as [|n IH]; cbn [sumf]; [ring|]. rewrite IH. ring. Qed.
+
+Lemma sumf_swap (g : nat -> nat -> Q) n m :
+  sumf (fun j => sumf (fun c => g j c) m) n == sumf (fun c => sumf (fun j => g j c) n) m.
+Proof.
+  induction n as [|n IH]; cbn [sumf].
+  - induction m as [|m IHm]; cbn [sumf]; [reflexivity|]. rewrite <- IHm. ring.
+  - rewrite IH. rewrite <- sumf_plus. reflexivity.
+Qed.
+
+Theorem llt_solves (n : nat) (L A : nat -> nat -> Q) (x y b : nat -> Q) :
+  (forall i j, (i < n)%nat -> (j < n)%nat -> A i j == sumf (fun c => L i c * L j c) n) ->   (* A = L L^T *)
+  (forall i, (i < n)%nat -> sumf (fun c => L i c * y c) n == b i) ->                        (* L y = b *)
+  (forall c, (c < n)%nat -> sumf (fun j => L j c * x j) n == y c) ->                        (* L^T x = y *)
+  forall i, (i < n)%nat -> sumf (fun j => A i j * x j) n == b i.                            (* A x = b *)
+Proof.
+  intros HA HL HU i Hi.
+  rewrite <- (HL i Hi).
+  transitivity (sumf (fun j => sumf (fun c => L i c * (L j c * x j)) n) n).
+  - apply sumf_ext. intros j Hj. rewrite (HA i j Hi Hj).
+    rewrite Qmult_comm, <- sumf_scale. apply sumf_ext. intros c _. ring.
+  - rewrite sumf_swap. apply sumf_ext. intros c Hc.
+    rewrite sumf_scale. rewrite (HU c Hc). reflexivity.
+Qed.
+
+(* forward substitution exists and solves L y = b when L is lower triangular with non-zero diagonal:
+   y_i = (b_i - sum_{c<i} L_ic y_c) / L_ii, as a list built left to right *)
+Fixpoint fwd_list (L : nat -> nat -> Q) (b : nat -> Q) (n : nat) : list Q :=
+  match n with
+  | O => []
+  | S i => let ys := fwd_list L b i in
+           ys ++ [(b i - sumf (fun c => L i c * nth c ys 0) i) / L i i]
+  end.
+
+Lemma fwd_list_length L b n : length (fwd_list L b n) = n.
+Proof. induction n as [|n IH]; cbn [fwd_list]; [reflexivity|]. rewrite app_length, IH. cbn. lia. Qed.
+
+Lemma fwd_list_prefix L b n : forall i, (i <= n)%nat -> forall c, (c < i)%nat ->
+  nth c (fwd_list L b n) 0 = nth c (fwd_list L b i) 0.
+Proof.
+  induction n as [|n IH]; intros i Hi c Hc.
+  - assert (i = 0)%nat by lia. subst. reflexivity.
+  - destruct (Nat.eq_dec i (S n)) as [->|Hne]; [reflexivity|].
+    cbn [fwd_list]. rewrite app_nth1 by (rewrite fwd_list_length; lia).
+    apply IH; lia.
+Qed.
+
+Theorem forward_substitution_solves (n : nat) (L : nat -> nat -> Q) (b : nat -> Q) :
+  (forall i c, (i < c)%nat -> L i c == 0) ->             (* lower triangular *)
+  (forall i, (i < n)%nat -> ~ L i i == 0) ->             (* e.g. positive diagonal *)
+  let y := fun c => nth c (fwd_list L b n) 0 in
+  forall i, (i < n)%nat -> sumf (fun c => L i c * y c) n == b i.
+Proof.
+  intros Htri Hd y i Hi.
+  (* split the sum at i: c < i, c = i, c > i *)
+  assert (Hsplit : forall m, (i < m)%nat -> (m <= n)%nat ->
+            sumf (fun c => L i c * y c) m == sumf (fun c => L i c * y c) i + L i i * y i).
+  { induction m as [|m IHm]; intros H1 H2; [lia|].
+    cbn [sumf]. destruct (Nat.eq_dec m i) as [->|Hne]; [reflexivity|].
+    rewrite IHm by lia. rewrite (Htri i m) by lia. ring. }
+  rewrite (Hsplit n Hi (le_n n)).
+  assert (Hy : y i == (b i - sumf (fun c => L i c * y c) i) / L i i).
+  { unfold y. rewrite (fwd_list_prefix L b n (S i)) by lia.
+    cbn [fwd_list]. rewrite app_nth2 by (rewrite fwd_list_length; lia).
+    rewrite fwd_list_length, Nat.sub_diag. cbn [nth].
+    apply Qmult_inj_r with (z := L i i); [apply Hd; exact Hi|].
+    assert (E : sumf (fun c => L i c * nth c (fwd_list L b i) 0) i == sumf (fun c => L i c * nth c (fwd_list L b n) 0) i).
+    { apply sumf_ext. intros c Hc. rewrite (fwd_list_prefix L b n i) by lia. reflexivity. }
+    rewrite E. reflexivity. }
+  rewrite Hy. field. apply Hd. exact Hi.
+Qed.
+
+(* ---- constants are in the span of the basis (partition of unity): fitting constant data returns it *)
+From PV Require Import BSpline.CoxDeBoor BSpline.BasisProofs.
+
+Lemma dot_repeat_r u c : forall n, (length u <= n)%nat -> dot u (repeat c n) == c * sumQ u.
+Proof.
+  induction u as [|a u IH]; intros n Hn; cbn [dot sumQ].
+  - destruct n; cbn; ring.
+  - destruct n as [|n]; [cbn in Hn; lia|]. cbn [repeat dot]. rewrite IH by (cbn in Hn; lia). ring.
+Qed.
+
+Lemma dot_app_repeat a b c : forall n, (length a + length b <= n)%nat ->
+  dot (a ++ b) (repeat c n) == dot a (repeat c (length a)) + dot b (repeat c (n - length a)).
+Proof.
+  induction a as [|x a IH]; intros n Hn; cbn [app length dot repeat].
+  - rewrite Nat.sub_0_r. ring.
+  - destruct n as [|n]; [cbn in Hn; lia|]. cbn [repeat dot Nat.sub]. rewrite IH by (cbn in Hn; lia). ring.
+Qed.
+
+Lemma sumQ_zeros n : sumQ (zeros n) == 0.
+Proof. induction n as [|n IH]; cbn [zeros repeat sumQ]; [reflexivity|]. unfold zeros in IH. rewrite IH. ring. Qed.
+
+Lemma sumQ_app a b : sumQ (a ++ b) == sumQ a + sumQ b.
+Proof. induction a as [|x a IH]; cbn [app sumQ]; [ring|]. rewrite IH. ring. Qed.
+
+(* a design row times the constant vector: c * (sum of the basis values) = c *)
+Theorem constant_in_span gb k x l c :
+  nondecr gb -> (1 <= k)%nat -> (k - 1 <= l)%nat -> (l + k <= length gb)%nat ->
+  nthQ gb l < nthQ gb (S l) ->
+  let m := (length gb - k)%nat in
+  (l <= m - 1)%nat -> (1 <= m)%nat ->
+  dot (design_row gb k m x l) (repeat c m) == c.
+Proof.
+  intros Hnd Hk Hl Hlen Hlt m Hlm Hm.
+  unfold design_row.
+  assert (Hb : length (bsplvn gb k x l) = k) by (apply bsplvn_length; exact Hk).
+  set (off := (l - (k - 1))%nat).
+  assert (Hlen' : (length (zeros off ++ bsplvn gb k x l ++ zeros (m - off - k)) <= m)%nat).
+  { rewrite !app_length, Hb. unfold zeros. rewrite !repeat_length. subst off. lia. }
+  rewrite dot_repeat_r by exact Hlen'.
+  rewrite !sumQ_app, !sumQ_zeros.
+  rewrite (bsplvn_partition_of_unity gb k x l Hnd Hk Hl Hlen Hlt). ring.
+Qed.
+
+(* hence: constant data y_i = c on a uniquely solvable problem are fitted by the constant coefficient vector *)
+Theorem fit_reproduces_constant m rows ws c x :
+  Forall (fun r : list Q => length r = m) rows ->
+  Forall (fun r => dot r (repeat c m) == c) rows ->
+  fit_dense m (mk_obs rows ws (map (fun _ => c) rows)) = Some x ->
+  Forall2 Qeq x (repeat c m).
+Proof.
+  intros Hr Hc Hf.
+  apply (fit_exact_recovery m rows ws (map (fun _ => c) rows) (repeat c m) x Hr).
+  - apply repeat_length.
+  - clear Hf Hr. induction Hc as [|r rows H _ IH]; cbn [map]; constructor; [symmetry; exact H | exact IH].
+  - exact Hf.
+Qed.
+
+(* ---- the observations built from a knot vector and sorted abscissae are well formed, so the optimality
+   theorem applies to the B-spline fit itself *)
+Lemma design_row_length gb k m x l : (1 <= k)%nat -> (k - 1 <= l)%nat -> (l + 1 <= m)%nat ->
+  length (design_row gb k m x l) = m.
+Proof.
+  intros Hk Hl Hm. unfold design_row. rewrite !app_length, (bsplvn_length gb k x l Hk).
+  unfold zeros. rewrite !repeat_length. lia.
+Qed.
+
+Lemma design_rows_len gb k xs : (1 <= k)%nat -> (2 * k <= length gb)%nat -> sortedQ xs = true ->
+  Forall (fun r : list Q => length r = (length gb - k)%nat) (design gb k xs).
+Proof.
+  intros Hk Hg Hs. unfold design.
+  pose proof (intrv_spec gb k xs) as HS.
+  rewrite (intrv_pointwise_gen gb k xs Hk Hg Hs).
+  apply Forall_forall. intros r Hr. apply in_map_iff in Hr. destruct Hr as [[x l] [<- Hin]].
+  apply in_combine_r in Hin. apply in_map_iff in Hin. destruct Hin as [x' [<- _]].
+  destruct (intrv1_spec gb k x' Hk Hg) as [[H1 H2] _]. cbn [fst snd].
+  apply design_row_length; lia.
+Qed.
+
+Lemma mk_obs_wf m rows : Forall (fun r : list Q => length r = m) rows -> forall ws ys, Forall (fun w => 0 <= w) ws ->
+  wf m (mk_obs rows ws ys).
+Proof.
+  induction rows as [|r rows IH]; intros Hr ws ys Hw; [constructor|].
+  destruct ws as [|w ws]; [constructor|]. destruct ys as [|y ys]; [constructor|].
+  inversion Hr as [|r' rows' Hr0 Hrs]; subst r' rows'. inversion Hw as [|w' ws' Hw0 Hws]; subst w' ws'.
+  cbn [mk_obs]. constructor.
+  - cbn [fst snd]. split; [exact Hr0 | exact Hw0].
+  - apply IH; assumption.
+Qed.
+
+Theorem bspline_fit_optimal gb k xs ys ws c :
+  (1 <= k)%nat -> (2 * k <= length gb)%nat -> sortedQ xs = true -> Forall (fun w => 0 <= w) ws ->
+  fit_coeff gb k xs ys ws = Some c ->
+  forall z, length z = (length gb - k)%nat ->
+  chi2 (fit_obs gb k xs ys ws) c <= chi2 (fit_obs gb k xs ys ws) z.
+Proof.
+  intros Hk Hg Hs Hw Hf z Hz.
+  apply (fit_optimal (length gb - k) (fit_obs gb k xs ys ws) c); [|exact Hf|exact Hz].
+  apply mk_obs_wf; [apply design_rows_len; assumption | exact Hw].
+Qed.
